@@ -26,126 +26,88 @@ Print Assumptions C01_header_lossless.
 (* per leaf kind: whatever the decoder accepts is reproduced from the decoded value and the captured
    reserved bytes -- nothing but the reserved bytes is lost (leaf_guard excludes only the trun whose
    data offset is present and zero, which Encode refuses: C01_trun_refuted) *)
-Theorem C01_leaf_lossless_ftyp : leaf_lossless dec_ftyp. Proof. exact lossless_ftyp. Qed.
-Print Assumptions C01_leaf_lossless_ftyp.
-Theorem C01_leaf_lossless_free : leaf_lossless dec_free. Proof. exact lossless_free. Qed.
-Print Assumptions C01_leaf_lossless_free.
-Theorem C01_leaf_lossless_mdat : leaf_lossless dec_mdat. Proof. exact lossless_mdat. Qed.
-Print Assumptions C01_leaf_lossless_mdat.
-Theorem C01_leaf_lossless_mfhd : leaf_lossless dec_mfhd. Proof. exact lossless_mfhd. Qed.
-Print Assumptions C01_leaf_lossless_mfhd.
-Theorem C01_leaf_lossless_tfhd : leaf_lossless dec_tfhd. Proof. exact lossless_tfhd. Qed.
-Print Assumptions C01_leaf_lossless_tfhd.
-Theorem C01_leaf_lossless_tfdt : leaf_lossless dec_tfdt. Proof. exact lossless_tfdt. Qed.
-Print Assumptions C01_leaf_lossless_tfdt.
-Theorem C01_leaf_lossless_trun : leaf_lossless dec_trun. Proof. exact lossless_trun. Qed.
-Print Assumptions C01_leaf_lossless_trun.
-Theorem C01_leaf_lossless_mvhd : leaf_lossless dec_mvhd. Proof. exact lossless_mvhd. Qed.
-Print Assumptions C01_leaf_lossless_mvhd.
-Theorem C01_leaf_lossless_tkhd : leaf_lossless dec_tkhd. Proof. exact lossless_tkhd. Qed.
-Print Assumptions C01_leaf_lossless_tkhd.
-Theorem C01_leaf_lossless_sidx : leaf_lossless dec_sidx. Proof. exact lossless_sidx. Qed.
-Print Assumptions C01_leaf_lossless_sidx.
-Theorem C01_leaf_lossless_trex : leaf_lossless dec_trex. Proof. exact lossless_trex. Qed.
-Print Assumptions C01_leaf_lossless_trex.
-Theorem C01_leaf_lossless_mdhd : leaf_lossless dec_mdhd. Proof. exact lossless_mdhd. Qed.
-Print Assumptions C01_leaf_lossless_mdhd.
-Theorem C01_leaf_lossless_hdlr : leaf_lossless dec_hdlr. Proof. exact lossless_hdlr. Qed.
-Print Assumptions C01_leaf_lossless_hdlr.
-Theorem C01_leaf_lossless_stts : leaf_lossless dec_stts. Proof. exact lossless_stts. Qed.
-Print Assumptions C01_leaf_lossless_stts.
+(* ftyp/styp free/skip mdat mfhd tfhd tfdt trun mvhd tkhd sidx trex mdhd hdlr stts *)
+Theorem C01_leaf_lossless_stage1 :
+  leaf_lossless dec_ftyp /\
+  leaf_lossless dec_free /\
+  leaf_lossless dec_mdat /\
+  leaf_lossless dec_mfhd /\
+  leaf_lossless dec_tfhd /\
+  leaf_lossless dec_tfdt /\
+  leaf_lossless dec_trun /\
+  leaf_lossless dec_mvhd /\
+  leaf_lossless dec_tkhd /\
+  leaf_lossless dec_sidx /\
+  leaf_lossless dec_trex /\
+  leaf_lossless dec_mdhd /\
+  leaf_lossless dec_hdlr /\
+  leaf_lossless dec_stts.
+Proof. exact (conj lossless_ftyp (conj lossless_free (conj lossless_mdat (conj lossless_mfhd (conj lossless_tfhd (conj lossless_tfdt (conj lossless_trun (conj lossless_mvhd (conj lossless_tkhd (conj lossless_sidx (conj lossless_trex (conj lossless_mdhd (conj lossless_hdlr lossless_stts))))))))))))). Qed.
+Print Assumptions C01_leaf_lossless_stage1.
+
+(* stsc stsz stco/stss co64 sdtp ctts elst saiz saio sbgp prft tenc frma vmhd smhd nmhd/sthd mfro mehd tfra pssh *)
+Theorem C01_leaf_lossless_stage2 :
+  leaf_lossless dec_stsc /\
+  leaf_lossless dec_stsz /\
+  leaf_lossless (dec_tab 4) /\
+  leaf_lossless (dec_tab 8) /\
+  leaf_lossless dec_sdtp /\
+  leaf_lossless dec_ctts /\
+  leaf_lossless dec_elst /\
+  leaf_lossless dec_saiz /\
+  leaf_lossless dec_saio /\
+  leaf_lossless dec_sbgp /\
+  leaf_lossless dec_prft /\
+  leaf_lossless dec_tenc /\
+  leaf_lossless dec_frma /\
+  leaf_lossless dec_vmhd /\
+  leaf_lossless dec_smhd /\
+  leaf_lossless dec_fullonly /\
+  leaf_lossless dec_mfro /\
+  leaf_lossless dec_mehd /\
+  leaf_lossless dec_tfra /\
+  leaf_lossless dec_pssh /\
+  leaf_lossless dec_url /\
+  leaf_lossless dec_avcC /\
+  leaf_lossless dec_btrt /\
+  leaf_lossless dec_pasp.
+Proof. exact (conj lossless_stsc (conj lossless_stsz (conj (lossless_tab 4) (conj (lossless_tab 8) (conj lossless_sdtp (conj lossless_ctts (conj lossless_elst (conj lossless_saiz (conj lossless_saio (conj lossless_sbgp (conj lossless_prft (conj lossless_tenc (conj lossless_frma (conj lossless_vmhd (conj lossless_smhd (conj lossless_fullonly (conj lossless_mfro (conj lossless_mehd (conj lossless_tfra (conj lossless_pssh (conj lossless_url (conj lossless_avcC (conj lossless_btrt lossless_pasp))))))))))))))))))))))). Qed.
+Print Assumptions C01_leaf_lossless_stage2.
+
+(* url avcC btrt pasp colr clap schm cslg senc emsg elng kind; hvcC (whole hevc.DecodeHEVCDecConfRec) subs; esds with its whole descriptor tree; the field prefixes of stsd dref Visual/AudioSampleEntry (MPre) *)
+Theorem C01_leaf_lossless_stage3 :
+  leaf_lossless dec_colr /\
+  leaf_lossless dec_clap /\
+  leaf_lossless dec_schm /\
+  leaf_lossless dec_cslg /\
+  leaf_lossless dec_senc /\
+  leaf_lossless dec_emsg /\
+  leaf_lossless dec_elng /\
+  leaf_lossless dec_kind /\
+  leaf_lossless dec_hvcC /\
+  leaf_lossless dec_subs /\
+  leaf_lossless dec_esds /\
+  leaf_lossless dec_stsd /\
+  leaf_lossless dec_dref /\
+  leaf_lossless dec_visual /\
+  leaf_lossless dec_audio.
+Proof. exact (conj lossless_colr (conj lossless_clap (conj lossless_schm (conj lossless_cslg (conj lossless_senc (conj lossless_emsg (conj lossless_elng (conj lossless_kind (conj lossless_hvcC (conj lossless_subs (conj lossless_esds (conj lossless_stsd (conj lossless_dref (conj lossless_visual lossless_audio)))))))))))))). Qed.
+Print Assumptions C01_leaf_lossless_stage3.
+
 
 (* stage 2 leaf kinds *)
-Theorem C01_leaf_lossless_stsc : leaf_lossless dec_stsc. Proof. exact lossless_stsc. Qed.
-Print Assumptions C01_leaf_lossless_stsc.
-Theorem C01_leaf_lossless_stsz : leaf_lossless dec_stsz. Proof. exact lossless_stsz. Qed.
-Print Assumptions C01_leaf_lossless_stsz.
-Theorem C01_leaf_lossless_stco_stss : leaf_lossless (dec_tab 4). Proof. exact (lossless_tab 4). Qed.
-Print Assumptions C01_leaf_lossless_stco_stss.
-Theorem C01_leaf_lossless_co64 : leaf_lossless (dec_tab 8). Proof. exact (lossless_tab 8). Qed.
-Print Assumptions C01_leaf_lossless_co64.
-Theorem C01_leaf_lossless_sdtp : leaf_lossless dec_sdtp. Proof. exact lossless_sdtp. Qed.
-Print Assumptions C01_leaf_lossless_sdtp.
-Theorem C01_leaf_lossless_ctts : leaf_lossless dec_ctts. Proof. exact lossless_ctts. Qed.
-Print Assumptions C01_leaf_lossless_ctts.
-Theorem C01_leaf_lossless_elst : leaf_lossless dec_elst. Proof. exact lossless_elst. Qed.
-Print Assumptions C01_leaf_lossless_elst.
-Theorem C01_leaf_lossless_saiz : leaf_lossless dec_saiz. Proof. exact lossless_saiz. Qed.
-Print Assumptions C01_leaf_lossless_saiz.
-Theorem C01_leaf_lossless_saio : leaf_lossless dec_saio. Proof. exact lossless_saio. Qed.
-Print Assumptions C01_leaf_lossless_saio.
-Theorem C01_leaf_lossless_sbgp : leaf_lossless dec_sbgp. Proof. exact lossless_sbgp. Qed.
-Print Assumptions C01_leaf_lossless_sbgp.
-Theorem C01_leaf_lossless_prft : leaf_lossless dec_prft. Proof. exact lossless_prft. Qed.
-Print Assumptions C01_leaf_lossless_prft.
-Theorem C01_leaf_lossless_tenc : leaf_lossless dec_tenc. Proof. exact lossless_tenc. Qed.
-Print Assumptions C01_leaf_lossless_tenc.
-Theorem C01_leaf_lossless_frma : leaf_lossless dec_frma. Proof. exact lossless_frma. Qed.
-Print Assumptions C01_leaf_lossless_frma.
-Theorem C01_leaf_lossless_vmhd : leaf_lossless dec_vmhd. Proof. exact lossless_vmhd. Qed.
-Print Assumptions C01_leaf_lossless_vmhd.
-Theorem C01_leaf_lossless_smhd : leaf_lossless dec_smhd. Proof. exact lossless_smhd. Qed.
-Print Assumptions C01_leaf_lossless_smhd.
-Theorem C01_leaf_lossless_nmhd_sthd : leaf_lossless dec_fullonly. Proof. exact lossless_fullonly. Qed.
-Print Assumptions C01_leaf_lossless_nmhd_sthd.
-Theorem C01_leaf_lossless_mfro : leaf_lossless dec_mfro. Proof. exact lossless_mfro. Qed.
-Print Assumptions C01_leaf_lossless_mfro.
-Theorem C01_leaf_lossless_mehd : leaf_lossless dec_mehd. Proof. exact lossless_mehd. Qed.
-Print Assumptions C01_leaf_lossless_mehd.
-Theorem C01_leaf_lossless_tfra : leaf_lossless dec_tfra. Proof. exact lossless_tfra. Qed.
-Print Assumptions C01_leaf_lossless_tfra.
-Theorem C01_leaf_lossless_pssh : leaf_lossless dec_pssh. Proof. exact lossless_pssh. Qed.
-Print Assumptions C01_leaf_lossless_pssh.
 
 (* stage 3 leaf kinds, and the field prefixes of the boxes that carry fields and children (MPre) *)
-Theorem C01_leaf_lossless_url : leaf_lossless dec_url. Proof. exact lossless_url. Qed.
-Print Assumptions C01_leaf_lossless_url.
-Theorem C01_leaf_lossless_avcC : leaf_lossless dec_avcC. Proof. exact lossless_avcC. Qed.
-Print Assumptions C01_leaf_lossless_avcC.
-Theorem C01_leaf_lossless_btrt : leaf_lossless dec_btrt. Proof. exact lossless_btrt. Qed.
-Print Assumptions C01_leaf_lossless_btrt.
-Theorem C01_leaf_lossless_pasp : leaf_lossless dec_pasp. Proof. exact lossless_pasp. Qed.
-Print Assumptions C01_leaf_lossless_pasp.
-Theorem C01_leaf_lossless_colr : leaf_lossless dec_colr. Proof. exact lossless_colr. Qed.
-Print Assumptions C01_leaf_lossless_colr.
-Theorem C01_leaf_lossless_clap : leaf_lossless dec_clap. Proof. exact lossless_clap. Qed.
-Print Assumptions C01_leaf_lossless_clap.
-Theorem C01_leaf_lossless_schm : leaf_lossless dec_schm. Proof. exact lossless_schm. Qed.
-Print Assumptions C01_leaf_lossless_schm.
-Theorem C01_leaf_lossless_cslg : leaf_lossless dec_cslg. Proof. exact lossless_cslg. Qed.
-Print Assumptions C01_leaf_lossless_cslg.
-Theorem C01_leaf_lossless_senc : leaf_lossless dec_senc. Proof. exact lossless_senc. Qed.
-Print Assumptions C01_leaf_lossless_senc.
-Theorem C01_leaf_lossless_emsg : leaf_lossless dec_emsg. Proof. exact lossless_emsg. Qed.
-Print Assumptions C01_leaf_lossless_emsg.
-Theorem C01_leaf_lossless_elng : leaf_lossless dec_elng. Proof. exact lossless_elng. Qed.
-Print Assumptions C01_leaf_lossless_elng.
-Theorem C01_leaf_lossless_kind : leaf_lossless dec_kind. Proof. exact lossless_kind. Qed.
-Print Assumptions C01_leaf_lossless_kind.
 (* stage 4: hvcC (the whole hevc.DecodeHEVCDecConfRec with its NALU arrays) and subs *)
-Theorem C01_leaf_lossless_hvcC : leaf_lossless dec_hvcC. Proof. exact lossless_hvcC. Qed.
-Print Assumptions C01_leaf_lossless_hvcC.
-Theorem C01_leaf_lossless_subs : leaf_lossless dec_subs. Proof. exact lossless_subs. Qed.
-Print Assumptions C01_leaf_lossless_subs.
 (* esds with its whole descriptor tree (ES_Descriptor, DecoderConfigDescriptor with nested descriptors, DecSpecificInfo,
    SLConfig, raw descriptors, UnknownData, size fields of any width): reproduced from the decoded tree plus the size
    fields as read; C01_esds_core adds that a run whose size fields are in the encoder's form and that kept no
    UnknownData (leaf_guard) captured exactly the encoder's size fields and never looked behind the bytes it consumed *)
-Theorem C01_leaf_lossless_esds : leaf_lossless dec_esds. Proof. exact lossless_esds. Qed.
-Print Assumptions C01_leaf_lossless_esds.
 Theorem C01_esds_core : forall h r l rsv r', bytes_ok r = true -> dec_esds h r = Ok ((l, rsv), r') ->
   bytes_ok r' = true /\ leaf_name l = n_esds /\ exists b, body_leaf l rsv = Ok b /\ r = b ++ r' /\
     (leaf_guard l = true -> rsv = dflt_rsv l /\ forall r2, dec_esds h (b ++ r2) = Ok ((l, rsv), r2)).
 Proof. exact esds_core. Qed.
 Print Assumptions C01_esds_core.
-Theorem C01_leaf_lossless_stsd : leaf_lossless dec_stsd. Proof. exact lossless_stsd. Qed.
-Print Assumptions C01_leaf_lossless_stsd.
-Theorem C01_leaf_lossless_dref : leaf_lossless dec_dref. Proof. exact lossless_dref. Qed.
-Print Assumptions C01_leaf_lossless_dref.
-Theorem C01_leaf_lossless_visual : leaf_lossless dec_visual. Proof. exact lossless_visual. Qed.
-Print Assumptions C01_leaf_lossless_visual.
-Theorem C01_leaf_lossless_audio : leaf_lossless dec_audio. Proof. exact lossless_audio. Qed.
-Print Assumptions C01_leaf_lossless_audio.
 
 (* the dispatch table as a whole: every registered entry of the model is lossless and names its leaf *)
 Theorem C01_leaf_table : Forall entry_ok leaf_table.
